@@ -676,9 +676,85 @@ func (st *State) call(x *ssa.Call) []*State {
 			return st.applySummary(x, f, sum, args)
 		}
 	}
+	// encoding/binary: BigEndian.Uint16/32/64(bs) is the big-endian concatenation of the first 2/4/8 bytes
+	if n := bigEndianWidth(name); n > 0 && len(args) == 2 && args[1].K == KSlice {
+		if v, ok := st.bigEndian(x, args[1].S, n); ok {
+			st.vals[x] = v
+			return []*State{st}
+		}
+	}
 	// everything else: opaque result of the right type
 	st.vals[x] = st.opaqueResult(x, name, resName)
 	return []*State{st}
+}
+
+// bigEndianWidth: number of bytes read by (encoding/binary.bigEndian).UintN, 0 for any other callee.
+func bigEndianWidth(name string) int {
+	switch name {
+	case "(encoding/binary.bigEndian).Uint16":
+		return 2
+	case "(encoding/binary.bigEndian).Uint32":
+		return 4
+	case "(encoding/binary.bigEndian).Uint64":
+		return 8
+	}
+	return 0
+}
+
+// BigEndianWidth is bigEndianWidth for hooks.
+func BigEndianWidth(name string) int { return bigEndianWidth(name) }
+
+// bigEndian evaluates binary.BigEndian.UintN on a tracked slice whose length is known to suffice.
+func (st *State) bigEndian(x *ssa.Call, s *SliceV, n int) (Val, bool) {
+	ip := st.ip
+	if !st.ProveSimplified(ip.SimplifyForm(s.Len.AddC(-int64(n)), st)) {
+		return Val{}, false
+	}
+	hi := int64(lin.PosInf)
+	if n < 8 {
+		hi = int64(1)<<uint(8*n) - 1
+	}
+	res := st.opaqueInt(x, 0, hi)
+	et := types.Typ[types.Uint8]
+	var elems []Val
+	for k := 0; k < n; k++ {
+		o := &Obj{ID: s.ID, Type: et}
+		if s.Event != "" {
+			o = &Obj{ID: s.Event, Type: et}
+		}
+		pv := Val{K: KPtr, O: o, Sym: "[" + s.Off.AddC(int64(k)).String() + "]"}
+		a := st.asAddr(pv, types.NewPointer(et))
+		if !a.ok {
+			return res, true
+		}
+		elems = append(elems, st.load(a))
+	}
+	// linear value when every byte has one: Σ byte_k · 256^(n-1-k) (cannot wrap: bytes are < 256, n <= 7 fits int64)
+	if n < 8 {
+		f := lin.Const(0)
+		okf := true
+		for k, e := range elems {
+			if e.K != KInt {
+				okf = false
+				break
+			}
+			f = f.Add(e.F.Scale(int64(1) << uint(8*(n-1-k))))
+		}
+		if okf {
+			res = IntVal(f)
+		}
+	}
+	if ip.TrackBits {
+		vec := make(bitdom.Vec, 8*n)
+		for k, e := range elems {
+			bv, _ := st.VecOf(e, et)
+			for b := 0; b < 8; b++ {
+				vec[8*(n-1-k)+b] = bv[b]
+			}
+		}
+		return st.withBits(res, vec), true
+	}
+	return res, true
 }
 
 // isPurePredicate: a package function whose parameters are all integers/booleans, whose single result
